@@ -5,6 +5,15 @@ CLAIMED = {
  "C11": dict(level="fault_enumeration", tech="deterministic simulation: scripted reader seam (short reads, EINTR, hard errors, early EOF) with per-call-index fault enumeration; seeded plans, shrinking, exact replay",
    text="Seeded simulation of update_reader / io::copy / Write over a scripted reader: per base plan every fault kind is enumerated at every call index 0..48, plus random fault scripts; file half compares update_mmap, update_mmap_rayon and update_reader(File) on scratch files around the 16 KiB threshold. Sampling over sources and scripts, enumeration over fault positions: evidence, not proof.",
    note="Trusted: the crate's one-shot functions as oracle for 'hash of exactly the yielded bytes' (as the property words it), std::io::copy, the kernel VFS for scratch files.", ref="DESIGN.md §3 C11"),
+ "C02": dict(level="exploration", tech="deterministic simulation: seeded delivery scripts over the update/Write/Read/rayon/mmap/Join seams, caller tasks interleaved by a baton scheduler at every kernel dispatch; shrinking and exact replay",
+   text="Seeded search over histories {absorb via any adapter, count, finalize, finalize_xof, clone, move between tasks, concurrent finalize of one &Hasher} on 1-3 hashers in 1-4 simulated caller tasks; after every call count() and every output are compared with the crate's one-shot function (and a single-update twin beyond 32 bytes) on exactly the bytes that instance absorbed. Sampling: evidence, not proof.",
+   note="Trusted: the crate's one-shot functions as oracle (the property's own wording); baton scheduler interleaves only at hook sites (kernel dispatch, reader calls, op boundaries, join splits).", ref="DESIGN.md §3 C02"),
+ "C03": dict(level="exploration", tech="deterministic simulation: seeded read/seek histories with injected failing seeks against a sparse SpecModel stream; readers cloned and moved between simulated tasks; shrinking and exact replay",
+   text="Seeded search over OutputReader histories (fill, Read adapters, set_position, seek incl. seeks that must fail, clone, hand-over between tasks) at positions across the whole 2^64-1 range with spikes at block counter 2^32 and the stream end; every byte is compared with the SpecModel root compression for its block index.",
+   note="Trusted: SpecModel (independent implementation of the paper pinned by frozen official vectors). Forward seeks beyond 2^64-1 are outside the property and never generated.", ref="DESIGN.md §3 C03"),
+ "C10": dict(level="exploration", tech="deterministic simulation: hasher pool with client cancellation at arbitrary operations (crash points), reset and reuse, lockstep fresh twin as reference model; shrinking and exact replay",
+   text="Seeded search over pool histories: clients run random prefixes (offsets, any adapter, finalize variants, clones) and are cancelled at an arbitrary operation; after reset() the next client's operations run in lockstep on a freshly constructed twin and must agree in count and every result; no in-domain operation may panic. Found and fixed: reset() kept a hazmat input offset.",
+   note="Trusted: fresh-twin comparison + crate one-shot functions; SpecModel for non-root chaining values.", ref="DESIGN.md §3 C10"),
 }
 NA = {
  "C01": "one-shot hash/keyed_hash/derive_key are pure functions of their arguments: no history, schedule, clock or fault exists for a simulator to control; input search alone would be fuzzing, a different technique family",
